@@ -285,7 +285,7 @@ CHECKS = {
                    '(stopped executors, frames with live locals), wait_group (consumed futures, two-owner TimedWaiter) at their quick / thorough '
                    'bounds, and (b) every pipeline program of the sequential enumerator (eager and lazy, length <= 2; thorough 3 reduced) x every '
                    'finish incl. dropped handles and never-started Tasks x throwing callbacks x every rejection index of the refusing executor',
-        budget=dict(quick=420, thorough=3000),
+        budget=dict(quick=600, thorough=3000),
         runs=[seq('pipeline', 'seq17', quick=dict(shards=16, args=['--mode', 'exec', '--prop', 'C03']),
                   thorough=dict(shards=16, args=['--mode', 'exec', '--prop', 'C03']), oracles=OWN),
               seq('pipeline', 'seq17', quick=dict(shards=16, args=['--mode', 'lazy', '--prop', 'C03']),
@@ -296,12 +296,12 @@ CHECKS = {
               mc('chain', 'mc-asan', quick=dict(P=3, S=1), thorough=dict(P=4, S=1), oracles=OWN),
               mc('shared', 'mc-asan', quick=dict(P=2, S=1, cells='set=(value|drop),keep=0'), thorough=dict(P=3, S=1), oracles=OWN),
               mc('when_all', 'mc-asan', quick=dict(P=2), thorough=dict(P=3), oracles=OWN),
-              mc('when_any', 'mc-asan', quick=dict(P=2), thorough=dict(P=3), oracles=OWN),
+              mc('when_any', 'mc-asan', quick=dict(P=2), thorough=dict(P=3, as_tier='quick'), oracles=OWN),
               mc('timed_wait', 'mc-asan', quick=dict(P=2, T=1, cells='after=now'), thorough=dict(P=3, T=1), oracles=OWN),
               mc('strand', 'mc-asan', quick=dict(P=2, S=1, cells='stop=(stop|hard)'), thorough=dict(P=3, S=1), oracles=OWN),
               mc('pool', 'mc-asan', quick=dict(P=2, cells='stop=hard|stop=stop'), thorough=dict(P=3), oracles=OWN),
               mc('coro_await', 'mc-asan', quick=dict(P=3, S=1), thorough=dict(P=99, S=1), oracles=OWN),
-              mc('wait_group', 'mc-asan', quick=dict(P=3, S=1, T=1, cells='act=(C|DC|AC)'), thorough=dict(P=99, S=1, T=1), oracles=OWN)],
+              mc('wait_group', 'mc-asan', quick=dict(P=3, S=1, T=1, cells='act=(C|DC|AC)'), thorough=dict(P=99, S=1, T=1, as_tier='quick'), oracles=OWN)],
         assumptions=['bounds of the individual harnesses (C01, C06-C11, C13, C16) and of the pipeline enumerator (C02/C12)',
                      'objects the fiber layer itself keeps (stack cache) are outside the ledger; LeakSanitizer is replaced by the per-execution allocation balance'],
         technique='model checking: ownership oracles evaluated on every exhaustively enumerated schedule / program of the other harnesses',
@@ -315,19 +315,19 @@ CHECKS = {
                    'Set, read after continuation / Get / Wait / Ready()==true), shared, strand and pool (plain fields written by consecutive '
                    'jobs), when_all, when_any, timed_wait, coro_await (co_await resumption), coro_mutex and coro_shared_mutex (plain data in '
                    'consecutive critical sections), wait_group, at their quick / thorough bounds',
-        budget=dict(quick=420, thorough=3000),
+        budget=dict(quick=600, thorough=3000),
         runs=[mc('handoff', 'mc-hb', quick=dict(P=99), thorough=dict(P=99), oracles=HB),
               mc('chain', 'mc-hb', quick=dict(P=3, S=1, cells='fin=Get'), thorough=dict(P=4, S=1), oracles=HB),
               mc('shared', 'mc-hb', quick=dict(P=2, S=1, cells='set=value'), thorough=dict(P=3, S=1), oracles=HB),
               mc('strand', 'mc-hb', quick=dict(P=2, S=1), thorough=dict(P=3, S=1), oracles=HB),
               mc('pool', 'mc-hb', quick=dict(P=2), thorough=dict(P=3), oracles=HB),
               mc('when_all', 'mc-hb', quick=dict(P=2, cells='pat=(VV|EV|XE|VVV|EVV)'), thorough=dict(P=3), oracles=HB),
-              mc('when_any', 'mc-hb', quick=dict(P=2, cells='pat=(VV|EV|XE|VE|EE|VVV|EVV)'), thorough=dict(P=3), oracles=HB),
+              mc('when_any', 'mc-hb', quick=dict(P=2, cells='pat=(VV|EV|XE|VE|EE|VVV|EVV)'), thorough=dict(P=3, as_tier='quick'), oracles=HB),
               mc('timed_wait', 'mc-hb', quick=dict(P=2, T=1), thorough=dict(P=3, T=1), oracles=HB),
               mc('coro_await', 'mc-hb', quick=dict(P=3, S=1), thorough=dict(P=99, S=1), oracles=HB),
               mc('coro_mutex', 'mc-hb', quick=dict(P=3, S=1, cells='exe=(inline|pool1)'), thorough=dict(P=99, S=1), oracles=HB),
               mc('coro_shared_mutex', 'mc-hb', quick=dict(P=3, S=1, cells='exe=(inline|pool1)'), thorough=dict(P=99, S=1), oracles=HB),
-              mc('wait_group', 'mc-hb', quick=dict(P=3, S=1, T=1), thorough=dict(P=99, S=1, T=1), oracles=HB)],
+              mc('wait_group', 'mc-hb', quick=dict(P=3, S=1, T=1), thorough=dict(P=99, S=1, T=1, as_tier='quick'), oracles=HB)],
         assumptions=['only sequentially consistent executions are enumerated: a defect that needs a stale value of a relaxed atomic to change '
                      'control flow WITHOUT leaving a pair of plain accesses unordered is out of reach (needs an axiomatic memory-model checker, not installed)',
                      'seq_cst is treated as acq_rel; FIBER instantiation of the library sources (production code path: no YACLIB_LOG_DEBUG, '
@@ -658,10 +658,12 @@ def run_mc(prop, run, tier, seed, t_end, work):
     vname = run['variant']
     binp = os.path.join(BUILD, vname, 'bin', run['harness'])
     opts = dict(run[tier])
-    opts['tier'] = tier
+    # a run of the thorough tier may ask for the harness's quick cell set and bounds (aggregate checks C03/C04: the heaviest
+    # harnesses are explored at their thorough bounds by the check of their own property, with the same oracles switched on)
+    opts['tier'] = opts.pop('as_tier', tier)
     env = dict(os.environ)
     env['ASAN_OPTIONS'] = ASAN_OPTIONS
-    cells = subprocess.run([binp, '--list-cells', '--tier', tier], stdout=subprocess.PIPE, text=True, env=env,
+    cells = subprocess.run([binp, '--list-cells', '--tier', opts['tier']], stdout=subprocess.PIPE, text=True, env=env,
                            check=True).stdout.split('\n')
     cells = [c for c in cells if c]
     if opts.get('cells'):
@@ -847,8 +849,11 @@ def check(prop, tier):
     errors = []
     nruns = len(spec['runs'])
     for i, run in enumerate(spec['runs']):
-        # every run gets an equal share of what is left
-        share_end = time.time() + (t_end - time.time()) / (nruns - i)
+        # a run may use what it needs of the remaining budget, but must leave every later run a minimum share, so that a
+        # run that does not finish cannot starve the others (measured: the runs differ by two orders of magnitude)
+        left = t_end - time.time()
+        reserve = min(120.0, 0.25 * budget / nruns)
+        share_end = time.time() + max(left / (nruns - i), left - reserve * (nruns - i - 1))
         if run['kind'] == 'mc':
             res, errs = run_mc(prop, run, tier, seed, share_end, work)
         else:
